@@ -113,7 +113,11 @@ class _RunMachine(Machine):
                     if matches(h, r.what):
                         if h.name:
                             self.env[h.name] = Opaque(f"exception {r.what}")
-                        self.run(h.body)
+                        outer, self.active_exception = getattr(self, "active_exception", None), r
+                        try:
+                            self.run(h.body)
+                        finally:
+                            self.active_exception = outer
                         break
                 else:
                     raise
